@@ -141,6 +141,7 @@ type argSrc struct {
 	// >0: the next Endpoint argument offers no user token policy of the type the next TokenType argument asks for
 	// (1 = no token policies at all, 2 = only other types), so that SecurityFromEndpoint takes its fallback
 	forceFallback int
+	forceStr      string // != "": the next plain string argument
 }
 
 func hx(s string) string { return hex.EncodeToString([]byte(s)) }
@@ -186,6 +187,9 @@ func (a *argSrc) String(opt, param string) string {
 		return files[k]
 	}
 	s := a.str()
+	if a.forceStr != "" {
+		s, a.forceStr = a.forceStr, ""
+	}
 	a.add(map[string]interface{}{"s": hx(s)})
 	return s
 }
@@ -513,6 +517,8 @@ func dumpClient(c *opcua.Client) interface{} {
 type optObs struct {
 	Opt  string        `json:"opt"`
 	Args []interface{} `json:"args"`
+	// Reused: this is not a new constructor call but the SAME Option value that client 0 got at this position
+	Reused bool `json:"reused,omitempty"`
 }
 type stepObs struct {
 	Outcome  string                 `json:"outcome"` // created | failed | panic
@@ -550,6 +556,14 @@ func fallbackPrograms() int {
 	return 2 * len(genOptions)
 }
 
+// programs in which ONE Option value X is applied to two clients, each followed by its own AuthPolicyID: 1 x every X
+func reusePrograms() int {
+	if optIndex("AuthPolicyID") < 0 {
+		return 0
+	}
+	return len(genOptions)
+}
+
 func dialerIndex() int {
 	for i, g := range genOptions {
 		if g.Name == "Dialer" {
@@ -563,23 +577,27 @@ func dialerIndex() int {
 func systematic() int {
 	n := len(genOptions)
 	if dialerIndex() < 0 {
-		return 2*n + fallbackPrograms()
+		return 2*n + fallbackPrograms() + reusePrograms()
 	}
-	return 2*n + len(partialDialers)*n + fallbackPrograms()
+	return 2*n + len(partialDialers)*n + fallbackPrograms() + reusePrograms()
 }
 
 func plan(seed uint64, index int) (kind string, clients [][]int, r *rng.R) {
 	r = rng.New(seed*1000003 + uint64(index))
 	n := len(genOptions)
 	switch {
-	case index >= systematic()-fallbackPrograms() && index < systematic():
-		k := index - (systematic() - fallbackPrograms())
+	case index >= systematic()-reusePrograms() && index < systematic():
+		k := index - (systematic() - reusePrograms())
+		ap := optIndex("AuthPolicyID")
+		return "reuse", [][]int{{k, ap}, {k, ap}}, r // position 0 of the second client is the first client's Option value
+	case index >= systematic()-reusePrograms()-fallbackPrograms() && index < systematic()-reusePrograms():
+		k := index - (systematic() - reusePrograms() - fallbackPrograms())
 		sfe := optIndex("SecurityFromEndpoint")
 		if k < n {
 			return "fallback-late", [][]int{{sfe}, {sfe, k}}, r // the second client gets X: must not change the first
 		}
 		return "fallback-early", [][]int{{sfe, k - n}, {sfe}}, r // the first client gets X: the second must not see it
-	case index >= 2*n && index < systematic()-fallbackPrograms():
+	case index >= 2*n && index < systematic()-reusePrograms()-fallbackPrograms():
 		// NewClient(Dialer(<partially filled dialer>), X) for every option X, then a default client
 		return fmt.Sprintf("dialer%d-then", partialDialers[(index-2*n)/n]), [][]int{{dialerIndex(), (index - 2*n) % n}, {}}, r
 	case index < n: // every option on its own, followed by a default client
@@ -608,6 +626,8 @@ func runProgram(seed uint64, index int) progObs {
 	kind, clients, r := plan(seed, index)
 	obs := progObs{Index: index, Kind: kind, Pristine: dumpDefaults()}
 	var made []*opcua.Client
+	var firstOpt opcua.Option
+	var firstObs optObs
 	for ci, optIdx := range clients {
 		a := &argSrc{r: r}
 		if strings.HasPrefix(kind, "dialer") && ci == 0 {
@@ -620,10 +640,27 @@ func runProgram(seed uint64, index int) progObs {
 		var oo []optObs
 		rs := int64(seed)*7919 + int64(index)*31 + int64(ci)
 		pred := mrand.New(mrand.NewSource(rs))
-		for _, oi := range optIdx {
+		for pos, oi := range optIdx {
 			a.desc = nil
 			g := genOptions[oi]
+			if kind == "reuse" && ci == 1 && pos == 0 {
+				// the caller built the option once and passes the same value to the second client
+				opts = append(opts, firstOpt)
+				ro := firstObs
+				ro.Reused = true
+				if g.Name == "RandomRequestID" {
+					ro.Args = []interface{}{map[string]interface{}{"rand": uint32(pred.Int31())}}
+				}
+				oo = append(oo, ro)
+				continue
+			}
+			if kind == "reuse" && pos == 1 {
+				a.forceStr = fmt.Sprintf("policy-of-client-%d", ci)
+			}
 			opts = append(opts, g.Make(a))
+			if kind == "reuse" && ci == 0 && pos == 0 {
+				firstOpt = opts[0]
+			}
 			args := a.desc
 			if g.Name == "RandomRequestID" {
 				args = append(args, map[string]interface{}{"rand": uint32(pred.Int31())})
@@ -632,6 +669,9 @@ func runProgram(seed uint64, index int) progObs {
 				args = []interface{}{}
 			}
 			oo = append(oo, optObs{Opt: g.Name, Args: args})
+			if kind == "reuse" && ci == 0 && pos == 0 {
+				firstObs = oo[0]
+			}
 		}
 		if oo == nil {
 			oo = []optObs{}
